@@ -18,7 +18,11 @@ func (rn *runner) bytesPhase(base []*edge, n int) error {
 	// seeds: the valid base message of every type plus a sample of lattice messages
 	var seeds [][]byte
 	var seedCh []byte
+	var seedSigned []bool // the seed carries a validator's valid signature (a mutation may leave it valid)
 	for _, e := range base {
+		if e.Act.M.T == "byzblock" {
+			continue
+		}
 		if devCount(e) == 0 || rng.Intn(40) == 0 {
 			cm, err := rn.in.make(e.Act.M)
 			if err != nil {
@@ -26,6 +30,8 @@ func (rn *runner) bytesPhase(base []*edge, n int) error {
 			}
 			seeds = append(seeds, cm.bytes)
 			seedCh = append(seedCh, cm.ch)
+			sg := e.Act.M.Sig
+			seedSigned = append(seedSigned, sg == "who" || sg == "proposer" || sg == "other")
 		}
 		if len(seeds) >= 120 {
 			break
@@ -110,9 +116,9 @@ func (rn *runner) bytesPhase(base []*edge, n int) error {
 		rn.ensureMode(mode)
 		stops := rn.b.sw.nStopped()
 		o := rn.wire(concrete{ch: ch, bytes: bz})
-		rec := hit{Class: rn.class, Hex: hexOf(bz), Path: "bytes/wire/" + mode, Concrete: fmt.Sprintf("channel %#x, mutation kind %d, decodes: %v", ch, kind, derr == nil)}
+		rec := hit{Class: rn.class, Hex: hexOf(bz), Path: "bytes/wire/" + mode, Signed: kind >= 2 && seedSigned[si], Concrete: fmt.Sprintf("channel %#x, mutation kind %d, decodes: %v", ch, kind, derr == nil)}
 		if o.smFail != nil {
-			rec.Kind, rec.Key, rec.Detail = "halt", fmt.Sprintf("halt/bytes/%s", panicClass(o.smFail)), fmt.Sprint(o.smFail)
+			rec.Kind, rec.Key, rec.Detail = "halt", fmt.Sprintf("halt/%s/%s", typeName(dm), panicClass(o.smFail)), fmt.Sprint(o.smFail)
 			rn.addHit(rec)
 			if err := rn.rebuild(); err != nil {
 				return err
@@ -138,7 +144,7 @@ func (rn *runner) bytesPhase(base []*edge, n int) error {
 			if d := rn.direct(dm); d.smFail != nil {
 				// reachable only if the reactor forwards it: it did not fail on the wire path above
 				if o.popped > 0 {
-					rec.Kind, rec.Key, rec.Detail, rec.Path = "halt", fmt.Sprintf("halt/bytes/%s", panicClass(d.smFail)), fmt.Sprint(d.smFail), "bytes/direct"
+					rec.Kind, rec.Key, rec.Detail, rec.Path = "halt", fmt.Sprintf("halt/%s/%s", typeName(dm), panicClass(d.smFail)), fmt.Sprint(d.smFail), "bytes/direct"
 					rn.addHit(rec)
 				} else {
 					rn.res.Latent["bytes/"+panicClass(d.smFail)]++
@@ -154,4 +160,31 @@ func (rn *runner) bytesPhase(base []*edge, n int) error {
 		}
 	}
 	return nil
+}
+
+// typeName names a decoded message like the specification does.
+func typeName(m cs.ConsensusMessage) string {
+	switch m.(type) {
+	case *cs.VoteMessage:
+		return "vote"
+	case *cs.ProposalMessage:
+		return "proposal"
+	case *cs.BlockPartMessage:
+		return "part"
+	case *cs.NewRoundStepMessage:
+		return "nrs"
+	case *cs.CommitStepMessage:
+		return "commitstep"
+	case *cs.HasVoteMessage:
+		return "hasvote"
+	case *cs.VoteSetMaj23Message:
+		return "maj23"
+	case *cs.VoteSetBitsMessage:
+		return "bits"
+	case *cs.ProposalPOLMessage:
+		return "pol"
+	case *cs.ProposalHeartbeatMessage:
+		return "heartbeat"
+	}
+	return "bytes"
 }
